@@ -1498,7 +1498,34 @@ def canon_bv(t):
     comprehension, and alpha-equivalent comprehensions are equal terms.  Step 1 gives every binder a fresh id,
     respecting shadowing (so a term into which other closed terms were inlined is treated correctly); step 2
     numbers by height."""
+    if _bvfree(t):
+        return t
     return _canon_bv(_uniquify(t, {}))[0]
+
+
+_NO_BVFREE = bool(os.environ.get("LCMSA_NO_BVFREE"))
+_BVFREE: dict = {}  # id(term) -> (term kept alive, flag): does the term contain no bound variable and no binder?
+
+
+def _bvfree(t):
+    """True iff no bound variable, comprehension, lambda or count occurs in t.  Such sub-terms (the bulk of an inlined
+    value graph) are returned unchanged by every pass below, which also keeps them shared."""
+    if not isinstance(t, tuple):
+        return True
+    if _NO_BVFREE:
+        return False
+    k = id(t)
+    hit = _BVFREE.get(k)
+    if hit is not None and hit[0] is t:
+        return hit[1]
+    if len(_BVFREE) > 3_000_000:
+        _BVFREE.clear()
+    if is_term(t) and (t[0] in ("bv", "comp", "lambda") or (t[0] == "op" and len(t) == 5 and t[1] == "count")):
+        r = False
+    else:
+        r = all(_bvfree(x) for x in t if isinstance(x, tuple))
+    _BVFREE[k] = (t, r)
+    return r
 
 
 def _binder_parts(t):
@@ -1511,7 +1538,7 @@ def _binder_parts(t):
 
 
 def _uniquify(t, env):
-    if not isinstance(t, tuple):
+    if not isinstance(t, tuple) or _bvfree(t):
         return t
     if is_term(t) and t[0] == "bv" and len(t) == 3:
         return env.get(t, t)
@@ -1552,7 +1579,7 @@ def _uniquify(t, env):
 
 
 def _canon_bv(t):
-    if not isinstance(t, tuple):
+    if not isinstance(t, tuple) or _bvfree(t):
         return t, 0
     kind = _binder_parts(t)
     if is_term(t) and t[0] == "lambda" and len(t) == 3 and all(isinstance(n, str) and n.startswith("_bq") for n in t[1]):
@@ -1615,7 +1642,7 @@ def _canon_bv(t):
 
 
 def _rename_bv(t, mapping):
-    if not isinstance(t, tuple):
+    if not isinstance(t, tuple) or _bvfree(t):
         return t
     if is_term(t) and t[0] == "bv" and len(t) == 3:
         return mapping.get(t, t)
